@@ -367,17 +367,21 @@ def natsHex (l : List Nat) : String :=
   if l.isEmpty then "-" else String.ofList (l.flatMap (fun x => [hexDigit (x / 16), hexDigit (x % 16)]))
 
 mutual
-partial def vStr : V → String
+/-- positions are written out with the numbers of the tokens they refer to -/
+partial def vStr (toks : Array TokInfo) : V → String
   | .nil => "_"
   | .tok i => s!"t{i}"
-  | .pos a b c d => s!"p{a}:{b}:{c}:{d}"
-  | .node k _ fs => s!"N{k}(" ++ ",".intercalate (vStrs fs) ++ ")"
-  | .list xs => "[" ++ ",".intercalate (vStrs xs) ++ "]"
+  | .pos s e =>
+    let (sl, sp) := s.startOf toks
+    let (el, ep) := e.endOf toks
+    s!"p{sl}:{el}:{sp}:{ep}"
+  | .node k _ fs => s!"N{k}(" ++ ",".intercalate (vStrs toks fs) ++ ")"
+  | .list xs => "[" ++ ",".intercalate (vStrs toks xs) ++ "]"
   | .bytes pre i => s!"b{natsHex pre}+{i}"
   | .bad => "!"
-partial def vStrs : List V → List String
+partial def vStrs (toks : Array TokInfo) : List V → List String
   | [] => []
-  | x :: r => vStr x :: vStrs r
+  | x :: r => vStr toks x :: vStrs toks r
 end
 
 def runParse (t : YYTab) (tbl : PathTable) (ws : String) : String :=
@@ -385,12 +389,12 @@ def runParse (t : YYTab) (tbl : PathTable) (ws : String) : String :=
   match entries.mapM parseTokInfo with
   | none => "bad-op"
   | some toks =>
-    match parseModel t Gen.posCombs tbl toks.toArray with
+    match parseTokens t Gen.posCombs tbl toks.toArray with
     | .error f => yyFaultStr f
     | .ok (none, _) => "fuel"
     | .ok (some c, s) =>
       let root := match s.aux.root with
-        | some r => vStr r
+        | some r => vStr toks.toArray r
         | none => "_"
       s!"{c} {s.aux.reports} {root}"
 
@@ -424,7 +428,7 @@ def runPipeline (t : YYTab) (tbl : PathTable) (ge73 : Bool) (src : Bytes) : Stri
   | some m => "fault:" ++ m.replace " " "_"
   | none =>
     let root := match o.root with
-      | some r => vStr r
+      | some r => vStr o.infos r
       | none => "_"
     let offs := ",".intercalate (o.toks.map (fun t => s!"{t.id}:{t.ts}:{t.te}"))
     s!"{(o.code.getD 9)} {o.semErrors} {o.lexErrors} {root} {offs}"
